@@ -332,7 +332,14 @@ def run(run):
             else:
                 run.bad("C19.X5", "dropped-error/%s/%s" % (short(p), short(callee)), where(t),
                         "%s: the error arm neither exits non-zero, propagates, nor feeds a failure that is reported" % inst)
+    x6(run)
+    batch(run)
+    run.assume("clap parses the command line as documented; fs::write may leave a partial file on I/O errors (not decided)")
+
+
+def x6(run):
     # ---------------- X6 library stdout
+    prog = run.prog
     roots, reach = lib_reachable(run, "C19.X6")
     for p in sorted(reach):
         for bid, t in prog.calls(p):
@@ -343,7 +350,11 @@ def run(run):
                     run.bad("C19.X6", "library-print/%s" % short(p), where(t),
                             "%s prints to stdout on the conversion path (reached via %s): the CLI's stdout would no longer be exactly the document" % (
                                 p, " -> ".join(short(x) for x in prog.path_to(p)[-4:])))
+
+
+def batch(run):
     # batch mode: convert_file writes the library's default conversion of the file
+    prog = run.prog
     cf = "svgbob_cli::convert_file"
     if cf in prog.bodies:
         cex = Expr(prog, cf)
@@ -360,7 +371,8 @@ def run(run):
             run.bad("C19.X1", "batch-output", where(prog.bodies[cf]), "convert_file does not write the unmodified default conversion of the file it read")
     else:
         run.missing("C19.X1", cf)
-    run.assume("clap parses the command line as documented; fs::write may leave a partial file on I/O errors (not decided)")
 
 
 run_flow = run
+fixture = x6
+FIXTURE_EXPECT = ["library-print/"]
